@@ -106,15 +106,23 @@ def run(ctx):
     for i in range(600 if q else 10000):
         n = rnd.randint(3, 7)
         calls = [{'op': 'new', 'V': list(range(rnd.randint(0, n))), 'E': gen.rand_digraph(rnd, n, 0.2), 'new': 1}]
+        gs = [1]
+        if rnd.random() < 0.4:          # a second graph over the same node objects
+            calls.append({'op': 'new', 'V': list(range(rnd.randint(0, n))), 'E': gen.rand_digraph(rnd, n, 0.25), 'new': 2})
+            gs = [1, 2]
         for _ in range(rnd.randint(3, 8)):
             r = rnd.random()
-            if r < 0.45:
-                calls.append({'op': 'sccs', 'g': 1})
+            g = rnd.choice(gs)
+            if r < 0.3:
+                calls.append({'op': 'sccs', 'g': g})
+            elif r < 0.5:               # the generator is only partly consumed (and left suspended, or abandoned)
+                calls.append({'op': 'sccs_some', 'k': rnd.randint(0, 3), 'hold': rnd.random() < 0.5, 'g': g})
             elif r < 0.85:
-                calls.append({'op': 'add_edge', 's': rnd.randrange(n), 'd': rnd.randrange(n), 'g': 1})
+                calls.append({'op': 'add_edge', 's': rnd.randrange(n), 'd': rnd.randrange(n), 'g': g})
             else:
-                calls.append({'op': 'add_node', 'v': rnd.randrange(n + 1), 'g': 1})
-        calls.append({'op': 'sccs', 'g': 1})
+                calls.append({'op': 'add_node', 'v': rnd.randrange(n + 1), 'g': g})
+        for g in gs:
+            calls.append({'op': 'sccs', 'g': g})
         behs.append({'calls': calls, 'family': 'scc/mutation history', 'naming': rnd.choice(['int', 'str', 'tuple', 'obj']), 'shuf': rnd.randrange(1 << 30)})
     for b in behs:
         c0 = b['calls'][0]
